@@ -1,7 +1,8 @@
 (* C20 — CSV to IPM to CSV returns the same rows. *)
 From Coq Require Import List Arith NArith ZArith.
 Require Import CU.model.Prim CU.model.Types CU.model.Unicode CU.model.Codec CU.model.Dates CU.model.Block CU.model.Vbs CU.model.Iso CU.model.Ipm CU.model.Tools.
-Require Import CU.spec.FramingSpec CU.spec.IsoSpec CU.proofs.ToolsProofs CU.proofs.CsvProofs.
+Require Import CU.spec.FramingSpec CU.spec.IsoSpec CU.proofs.CsvProofs.
+Require CU.gen.GenConfig.
 Import ListNotations.
 
 (* csv parsing/printing itself is CPython's csv module: an oracle whose only assumed property is
@@ -12,11 +13,21 @@ Hypothesis Bpos : 0 < B.
 Variable maxlen : N.
 Hypothesis maxlen_ok : (maxlen < 2 ^ 32)%N.
 
-(* a table of well-formed messages expressed as CSV: `canonical_tableb` (CsvProofs.v) says: distinct columns drawn from
-   MTI / configured data elements / PDS sub-elements (not the PDS carriers together with PDS columns); an MTI cell of 4
-   digits in every row; numbers in plain decimal (no sign, no leading zeros) within the field width; date-times in
-   ISO form "YYYY-MM-DD HH:MM:SS" representable in the element's format; fixed text of exactly the field width;
-   variable text of 1..99 / 1..999 characters; empty cells = absent; every character encodable; records fit. *)
+(* a table of well-formed messages expressed as CSV: `canonical_tableb cfg cd maxlen cols rows` (CsvProofs.v) says:
+   - the columns are distinct, contain MTI, and each is MTI, a configured data element DEn with 2 <= n <= 127, or a PDS
+     sub-element with a tag of 4 ASCII digits; if there is any PDS column, no PDS carrier element is a column;
+   - every row has as many cells as there are columns; an empty cell means absent (the MTI cell is never empty);
+   - the MTI cell is 4 ASCII digits; a non-empty cell of an int element is a plain decimal numeral (ASCII digits, no sign,
+     no leading zeros: `str_of_N n`) whose zero-padded rendering fits the field; of a date element the ISO form
+     "YYYY-MM-DD HH:MM:SS" (`parse_iso`) of a date-time representable in the element's format (`wf_dateb`) whose rendering
+     fits; of a fixed text element exactly the field width; of a variable one 1..99 / 1..999 characters (a carrier given
+     directly must parse as PDS data); of a PDS column at most 992 characters; no cell of an ICC (bytes) or decimal element;
+     everything that is written is encodable in the codec (also the ten digits, for the length prefixes);
+   - when the row supplies PDS cells the configured carriers are LLLVAR text elements 2..127 and the packing fits them;
+   - the encoded record is at most maxlen bytes.
+   `csv_cfgb cfg`: no element has a PAN / PAN-PREFIX processor (a masked or shortened value does not come back).
+   The native message of such a row (numerals as int, ISO strings as datetime: `native_row`) satisfies `wf_msgb`
+   (CsvProofs.cs_native_wf), and the encoder does not tell a cell from its native value (cs_dumps_native). *)
 Theorem C20_rows : forall cfg cd blocked cols rows,
   wf_cfgb cfg = true -> csv_cfgb cfg = true -> codec_okb cd = true ->
   canonical_tableb cfg cd maxlen cols rows = true ->
@@ -33,3 +44,32 @@ Print Assumptions C20_int_cell.
 Theorem C20_date_cell : forall s d, parse_iso s = Some d -> iso_of d = s.
 Proof. exact c20_date_cell. Qed.
 Print Assumptions C20_date_cell.
+
+(* the domain is inhabited and the round trip computes: the packaged configuration, latin_1, blocked and unblocked, a cell
+   with a comma, a quote and spaces, empty cells, DE4 = "0", DE12 = "2021-03-04 05:06:07" *)
+Definition ex_cd : codec :=
+  match codec_named [108; 97; 116; 105; 110; 95; 49]%N with Some cd => cd | None => mkcodec [] end.
+Definition ex_cols : list key := [KMTI; KDE 2; KDE 4; KDE 12; KPDS [48; 48; 50; 51]%N].
+Definition ex_rows : list (list str) :=
+  [ [[49; 50; 52; 48]%N;                                                                   (* 1240 *)
+     [53; 52; 49; 50; 51; 52; 53; 54; 55; 56; 57; 48; 49; 50; 51; 52]%N;                   (* 5412345678901234 *)
+     [48]%N;                                                                               (* 0 *)
+     [50; 48; 50; 49; 45; 48; 51; 45; 48; 52; 32; 48; 53; 58; 48; 54; 58; 48; 55]%N;       (* 2021-03-04 05:06:07 *)
+     [84; 44; 32; 34; 120; 34; 32; 121]%N];                                                (* T, "x" y *)
+    [[49; 50; 52; 48]%N;
+     [];
+     [49; 50; 51; 52; 53]%N;                                                               (* 12345 *)
+     [50; 48; 50; 49; 45; 48; 51; 45; 48; 52; 32; 48; 53; 58; 48; 54; 58; 48; 55]%N;
+     []] ].
+
+Example C20_example_domain :
+  wf_cfgb CU.gen.GenConfig.packaged_bit_config = true /\ csv_cfgb CU.gen.GenConfig.packaged_bit_config = true /\
+  codec_okb ex_cd = true /\
+  canonical_tableb CU.gen.GenConfig.packaged_bit_config ex_cd 6000 ex_cols ex_rows = true.
+Proof. repeat split; vm_compute; reflexivity. Qed.
+
+Example C20_example_roundtrip : forall blocked : bool,
+  (do file <- csv_to_ipm 1012 CU.gen.GenConfig.packaged_bit_config ex_cd blocked ex_cols ex_rows;
+   ipm_to_rows 1012 6000 CU.gen.GenConfig.packaged_bit_config ex_cd blocked ex_cols file)
+  = Ok (map (map (@Some str)) ex_rows).
+Proof. intros [|]; vm_compute; reflexivity. Qed.
